@@ -57,6 +57,13 @@ def shapes(tier, seed):
         if tier == "thorough":
             for hist in itertools.product(("sort -b,a", "sel b in [a,k]", "mat", "to sq", "to it2", "compile", "execute", "process"), repeat=4):
                 out.append((start, hist))
+    # a leaf whose payload is a lazy compound iterable (a ChainRowIterable over two row sequences, as a transfer hook may hand one
+    # over): nothing an execution does may change what that payload yields
+    cmenu = ("chain self", "sel a>k", "dedup", "sort -b,a", "slice 0:1", "calc d", "mat", "to it2", "execute", "process")
+    for L in range(1, k + 1):
+        for hist in itertools.product(cmenu, repeat=L):
+            if "execute" in hist and (L < 3 or "chain self" in hist):
+                out.append(("C", hist))
     size = 60
     return [{"items": out[i:i + size]} for i in range(0, len(out), size)]
 
@@ -74,6 +81,11 @@ def fingerprint(rel):
         if isinstance(p, iteration.RowIterable) and hasattr(p, "rows"):
             rows = p.rows.values() if isinstance(p.rows, dict) else p.rows
             pay = [sorted((str(t), str(v)) for t, v in r.items()) for r in rows]
+        elif isinstance(p, iteration.RowIterable):
+            try:
+                pay = [sorted((str(t), str(v)) for t, v in r.items()) for r in common.take(p)]  # reading a leaf payload is free of side effects
+            except common.Runaway as e:
+                pay = f"payload does not end: {e}"
         elif isinstance(p, sql.Payload):
             pay = (str(p.from_clause), [str(w) for w in p.where], sorted((str(k), str(v)) for k, v in p.columns_available.items()))
     return (repr(rel), str(rel), h, frozenset(rel.columns), rel.min_rows, rel.max_rows, pay,
@@ -114,6 +126,10 @@ def run_history(start, hist, ctx, valfn):
         env = Env(symbolic=ctx is not None)
         rows = [{c: valfn("X", c, i) for c in "abc"} for i in range(N)]
         env.add_iter_leaf("X", "abc", rows, engine="it1", messages=[])  # an (empty) list, as callers pass
+        if start == "C":
+            crows = [{env.tags[c]: valfn("C", c, i) for c in "abc"} for i in range(N)]
+            cp = iteration.ChainRowIterable([iteration.RowSequence(crows[:1]), iteration.RowSequence(crows[1:])])
+            env.add_iter_leaf("C", "abc", [{c: r[env.tags[c]] for c in "abc"} for r in crows], engine="it1", payload=cp, min_rows=0, max_rows=None)
         env.add_sql_leaf("S", "abc", N, table=valfn("S", None, None))
         env.add_sql_leaf("Z", "ad", 1, table=valfn("Z", None, None))
         env.bind = {"$k": valfn("$k", None, None)}
@@ -180,8 +196,8 @@ def run_history(start, hist, ctx, valfn):
             elif act == "execute":
                 if isinstance(cur.engine, iteration.Engine):
                     try:
-                        r1 = [dict(r) for r in cur.engine.execute(cur)]
-                        r2 = [dict(r) for r in cur.engine.execute(cur)]
+                        r1 = [dict(r) for r in common.take(cur.engine.execute(cur))]
+                        r2 = [dict(r) for r in common.take(cur.engine.execute(cur))]
                     except EngineError:
                         r1 = r2 = None  # unprocessed cross-engine tree / joins
                     if r1 is not None:
@@ -292,8 +308,12 @@ def concrete_check(start, hist, model):
             return int(model.get("k", 0))
         return int(model.get(f"{name}.{c}{i}", 0))
 
+    from ..symx import PathTimeout, time_limit
     try:
-        problems, obs = run_history(start, hist, None, valfn)
+        with time_limit(20):
+            problems, obs = run_history(start, hist, None, valfn)
+    except PathTimeout:
+        return True, "does-not-terminate", "the history did not come back within 20 s with ordinary values"
     except Exception as e:  # noqa: BLE001
         return True, f"raises:{type(e).__name__}", str(e)[:140]
     if problems:
